@@ -301,7 +301,26 @@ def strategy(tier: str) -> Any:
     return cases(tier)
 
 
+def deep_chain_case(n: int, cut: Any, vals: List[Any]) -> Dict[str, Any]:
+    """Scale: a pipeline of n steps (one function used at n call sites, each step consuming the previous one), composed
+    from nothing (inputs=[]) or from one step in the middle to its last step."""
+    body = []
+    for i in range(n):
+        body.append({"k": "call", "fn": "step", "site": gen.site(i), "mark": True, "args": [["p", "p0"]] if i == 0 else [["v", f"v{i - 1}"]],
+                     "kwargs": {}, "active": None, "unpack": None, "tags": [], "out": f"v{i}"})
+    P = {"name": "CHAIN", "params": [["p0", {"d": 3}]], "fns": {"step": {"kind": "term", "res": "thread"}}, "body": body,
+         "ret": ["T", [["v", f"v{n - 1}"]]]}
+    return {"prog": P, "mc": 1, "setup_first": False, "run_debug": False, "compose_debug": False, "orig_args": [],
+            "inputs": [] if cut is None else [gen.site(cut)], "outputs": [gen.site(n - 1)], "single": False, "vals": vals, "forms": {},
+            "exec_first": None, "draw_first": False, "orig_async": False, "as_async": None, "deep_chain": n}
+
+
 def run_shard(H: Harness) -> None:
+    if H.tier == "thorough":
+        # scale: one deep pipeline per shard (deeper than Python's default recursion limit), composed from nothing or
+        # from one of its first steps; the quick tier has one such case in its regression corpus (replays/C19/f13-*)
+        n = 1040 + 45 * H.shard
+        H.one(deep_chain_case(n, None if H.shard % 2 == 0 else 3 + H.shard, [] if H.shard % 2 == 0 else [prog.enc("w")]))
     H.run_hypothesis(strategy)
 
 
